@@ -930,6 +930,8 @@ class SolverWrapper:
         Ls = [r[0] for r in ranges]
         Us = [r[1] for r in ranges]
         M = (max(Us) - min(Ls)) * 2
+        # The same big-M relaxes the y-constraints, so it must also cover the spread of the constants
+        M = max(M, max(constants) - min(constants))
 
         # Create binary variables z[i] for each piece.
         z = self.add_variables(
